@@ -6,7 +6,7 @@ from .. import astx, modgen
 from ..core import REPO, CaseTimeout, case_timeout
 from ..refeval import Seq, evaluate, norm
 
-N_PROGRAMS = {"quick": 14, "thorough": 700}
+N_PROGRAMS = {"quick": 14, "thorough": 17500}
 TIME_BUDGET = {"quick": 60, "thorough": 270}
 META = {
     "rule": "generated modules (real files): a data model with real method bodies and defaults, 3 datasets (empty, small random with empty "
